@@ -15,3 +15,4 @@ def rules(ctx):
     S.replaced_range_rules(ctx)
     S.after_bound_rules(ctx)
     S.survey2_rules(ctx)
+    S.survey3_rules(ctx)
